@@ -236,6 +236,33 @@ fn id_desc(head: &[u8]) -> (&[u8], Option<&[u8]>) {
     }
 }
 
+/// text of one FASTA record as some other program may have written it: the sequence in lines of the
+/// width that will be asked for, of one less, one more, or unrelated; LF, CRLF, or different endings for
+/// header and sequence lines
+fn layout_record(h: &[u8], s: &[u8], width: usize) -> Vec<u8> {
+    let v = h.len().wrapping_mul(31).wrapping_add(s.len()).wrapping_add(width);
+    let l = match v % 4 {
+        0 => width,
+        1 => width.saturating_sub(1).max(1),
+        2 => width.saturating_add(1),
+        _ => (width % 7).max(1),
+    };
+    let (t0, t1): (&[u8], &[u8]) = match (v / 4) % 4 {
+        0 => (b"\n", b"\n"),
+        1 => (b"\r\n", b"\r\n"),
+        2 => (b"\n", b"\r\n"),
+        _ => (b"\r\n", b"\n"),
+    };
+    let mut tmp = vec![b'>'];
+    tmp.extend_from_slice(h);
+    tmp.extend_from_slice(t0);
+    for line in s.chunks(l.max(1)) {
+        tmp.extend_from_slice(line);
+        tmp.extend_from_slice(t1);
+    }
+    tmp
+}
+
 /// (name, wrapped?, writer). The writer gets head, seq, wrap width, chunking of seq.
 fn fasta_writers() -> Vec<FaWriter> {
     vec![
@@ -280,10 +307,8 @@ fn fasta_writers() -> Vec<FaWriter> {
             fasta::OwnedRecord { head: h.to_vec(), seq: s.to_vec() }.write_wrap(w, width)
         })),
         ("RefRecord::write", false, Box::new(|w, h, s, width, _| {
-            // a borrowed record with several lines: wrap first, parse, write
-            let mut tmp = vec![];
-            fasta::write_head(&mut tmp, h)?;
-            fasta::write_wrap_seq(&mut tmp, s, (width % 5).max(1))?;
+            // a borrowed record with several lines, parsed from a text with its own layout
+            let tmp = layout_record(h, s, width);
             let mut rdr = fasta::Reader::new(&tmp[..]);
             match rdr.next() {
                 Some(Ok(r)) => r.write(w),
@@ -291,9 +316,7 @@ fn fasta_writers() -> Vec<FaWriter> {
             }
         })),
         ("RefRecord::write_wrap", true, Box::new(|w, h, s, width, _| {
-            let mut tmp = vec![];
-            fasta::write_head(&mut tmp, h)?;
-            fasta::write_wrap_seq(&mut tmp, s, (width % 7).max(1))?;
+            let tmp = layout_record(h, s, width);
             let mut rdr = fasta::Reader::new(&tmp[..]);
             match rdr.next() {
                 Some(Ok(r)) => r.write_wrap(w, width),
